@@ -29,13 +29,14 @@ type Engine struct {
 	renamed      map[string]string
 	renamedNotes []string
 	// package-level slices initialised from a literal of constants and never written afterwards
-	constTables map[string][]ssa.Value // element: *ssa.Const, or the load (*ssa.UnOp) of a package-level sentinel
-	strIDs      map[string]int
-	inferred    map[string]string // fields of shared structs without a declaration: key -> inferred class
-	strs        []string
-	tyIDs       map[string]int
-	tys         []string
-	repo        string
+	constTables  map[string][]ssa.Value // element: *ssa.Const, or the load (*ssa.UnOp) of a package-level sentinel
+	strIDs       map[string]int
+	inferred     map[string]string // fields of shared structs without a declaration: key -> inferred class
+	fieldRenames map[string]string // Struct.old -> new field name, where a contract names a field that was renamed
+	strs         []string
+	tyIDs        map[string]int
+	tys          []string
+	repo         string
 	// excluded source files (test support, metrics plumbing)
 	excluded          map[string]bool
 	mayAcq            map[*ssa.Function]map[string]bool
@@ -193,6 +194,60 @@ func LoadEngine(repo string, contractsPath string) (*Engine, error) {
 			cs.Funcs[nk] = fc
 			e.renamed[bareName(nk)] = bareName(k)
 			e.renamedNotes = append(e.renamedNotes, fmt.Sprintf("contract of %s follows the renamed function %s", k, nk))
+		}
+	}
+
+	// An unexported interface of the package that the contract file does not mention, and whose methods all belong
+	// (with identical signatures) to exactly one interface that the contract file does mention, stands for that
+	// interface: a store handle narrowed to `interface{ Get(...); Update(...) }` still raises the events of the
+	// interface it was narrowed from.
+	ifaceAliases = map[string]string{}
+	if raw, err := os.ReadFile(e.cs.Path); err == nil {
+		text := string(raw)
+		mentioned := func(n string) bool {
+			return strings.Contains(text, " "+n+".") || strings.Contains(text, "iface "+n+".")
+		}
+		var cands []*types.TypeName
+		scopes := []*types.Package{e.tpkg}
+		scopes = append(scopes, e.tpkg.Imports()...)
+		for _, tp := range scopes {
+			for _, n := range tp.Scope().Names() {
+				if tn, ok := tp.Scope().Lookup(n).(*types.TypeName); ok && types.IsInterface(tn.Type()) && mentioned(typeString(tn.Type())) {
+					cands = append(cands, tn)
+				}
+			}
+		}
+		for _, n := range e.tpkg.Scope().Names() {
+			tn, ok := e.tpkg.Scope().Lookup(n).(*types.TypeName)
+			if !ok || tn.Exported() || !types.IsInterface(tn.Type()) || mentioned(typeString(tn.Type())) {
+				continue
+			}
+			it, _ := tn.Type().Underlying().(*types.Interface)
+			if it == nil || it.NumMethods() == 0 {
+				continue
+			}
+			var hits []string
+			for _, c := range cands {
+				ci := c.Type().Underlying().(*types.Interface)
+				all := true
+				for i := 0; i < it.NumMethods() && all; i++ {
+					m := it.Method(i)
+					obj, _, _ := types.LookupFieldOrMethod(c.Type(), false, m.Pkg(), m.Name())
+					if m.Exported() {
+						obj, _, _ = types.LookupFieldOrMethod(c.Type(), false, c.Pkg(), m.Name())
+					}
+					cm, _ := obj.(*types.Func)
+					all = cm != nil && types.Identical(cm.Type(), m.Type())
+				}
+				_ = ci
+				if all {
+					hits = append(hits, typeString(c.Type()))
+				}
+			}
+			if len(hits) == 1 {
+				ifaceAliases[typeString(tn.Type())] = hits[0]
+				e.renamedNotes = append(e.renamedNotes, fmt.Sprintf("the unexported interface %s stands for %s (all its methods belong to it)", typeString(tn.Type()), hits[0]))
+			}
 		}
 	}
 
@@ -554,6 +609,7 @@ func (e *Engine) inferFieldClasses() {
 				cp.Key = sname + "." + match.Name()
 				e.cs.Fields[cp.Key] = &cp
 				e.inferred[cp.Key] = "renamed from " + fd.Key
+				e.noteFieldRename(fd.Key, match.Name())
 			}
 		}
 		for i := 0; i < st.NumFields(); i++ {
@@ -810,4 +866,14 @@ func staticallyCalls(e *Engine, fn *ssa.Function, bare string) bool {
 		return false
 	}
 	return visit(fn, 0)
+}
+
+func (e *Engine) noteFieldRename(oldKey, newName string) {
+	if e.fieldRenames == nil {
+		e.fieldRenames = map[string]string{}
+	}
+	if _, ok := e.fieldRenames[oldKey]; !ok {
+		e.fieldRenames[oldKey] = newName
+		e.renamedNotes = append(e.renamedNotes, fmt.Sprintf("contract expressions naming the field %s follow its new name %s", oldKey, newName))
+	}
 }
